@@ -32,15 +32,20 @@ package org.apache.commons.math3.distribution {
     private val lo = math.max(0, sampleSize + numberOfSuccesses - populationSize)
     private val hi = math.min(numberOfSuccesses, sampleSize)
 
-    private def choose(n: Int, k: Int): BigInt = {
+    private def choose(n: Int, k0: Int): BigInt = {
+      val k = math.min(k0, n - k0)
       var r = BigInt(1)
       var i = 1
       while (i <= k) { r = r * (n - k + i) / i; i += 1 }
       r
     }
 
+    // C(m,k) C(N-m,n-k) / C(N,n) = C(n,k) C(N-n,m-k) / C(N,m): use the form whose binomials stay small
     private val w: Array[BigInt] =
-      (lo to hi).map(k => choose(numberOfSuccesses, k) * choose(populationSize - numberOfSuccesses, sampleSize - k)).toArray
+      if (sampleSize <= numberOfSuccesses)
+        (lo to hi).map(k => choose(numberOfSuccesses, k) * choose(populationSize - numberOfSuccesses, sampleSize - k)).toArray
+      else
+        (lo to hi).map(k => choose(sampleSize, k) * choose(populationSize - sampleSize, numberOfSuccesses - k)).toArray
     private val total: BigInt = w.sum
     private val mc = new java.math.MathContext(60)
     private def ratio(num: BigInt): Double =
